@@ -19,17 +19,20 @@ type LocalLock struct {
 // GetLocalLock returns a LocalLock with the specified name
 func GetLocalLock(ctx iface.OrdaContext, lockName string) *LocalLock {
 
-	value, loaded := localLockMap.LoadOrStore(lockName, &LocalLock{
-		ctx:      ctx,
-		mutex:    golock.NewCASMutex(),
-		lockName: lockName,
-	})
+	// only the mutex is shared between callers: each caller waits with its own context
+	// (a cached lock object would keep the context of its first caller, which is cancelled
+	// as soon as that caller's request is over).
+	value, loaded := localLockMap.LoadOrStore(lockName, golock.NewCASMutex())
 	if loaded {
 		ctx.L().Infof("[🔒] load lock '%v'", lockName)
 	} else {
 		ctx.L().Infof("[🔒] create lock '%v'", lockName)
 	}
-	return value.(*LocalLock)
+	return &LocalLock{
+		ctx:      ctx,
+		mutex:    value.(*golock.CASMutex),
+		lockName: lockName,
+	}
 }
 
 // TryLock tries to a local lock, and returns true if it succeeds; otherwise false
